@@ -420,6 +420,11 @@ def check(ctx):
     handlers, cap = _check_before_write(ctx, mod)
     _key_guarantee(ctx, mod, handlers, cap, chk)
     _trait_limits(ctx, mod, cap)
+    # shared with C01.7: the parsers the three routines agree on mean the
+    # same quantity however it is spelled (binary K/M/G/T, decimal KB/MB/..)
+    from . import c01
+    with ctx.shared({'C01': 'C19.1'}):
+        c01._units(ctx)
 
 
 _A = 'lib/python/treadmill/api/allocation.py'
